@@ -46,6 +46,17 @@ outputs:
 `
 
 func hashResult(r *harness.Result) string {
+	// error *messages* are not part of the trace: pluginsdk builds some of them by ranging over a Go map
+	// ("expected one of: zero, n, tag ..."), which the instrumentation does not reach; the oracles compare
+	// error classes only
+	clients := make([]*harness.ClientResult, len(r.Clients))
+	for i, c := range r.Clients {
+		cc := harness.ClientResult{Name: c.Name, Returned: c.Returned, OutputID: c.OutputID, OutputData: c.OutputData, ErrClass: c.ErrClass,
+			StartSeq: c.StartSeq, EndSeq: c.EndSeq, StartUS: c.StartUS, EndUS: c.EndUS, CancelSeq: c.CancelSeq, CancelUS: c.CancelUS,
+			Cancelled: c.Cancelled, LeakedAtReturn: c.LeakedAtReturn, OpenAtReturn: c.OpenAtReturn}
+		clients[i] = &cc
+	}
+	r = &harness.Result{Outcome: r.Outcome, Clients: clients, Events: r.Events, Panics: r.Panics, Journal: r.Journal}
 	b, _ := json.Marshal(struct {
 		O string
 		C []*harness.ClientResult
